@@ -103,6 +103,14 @@ def c09_stages(tier):
             ptfs_stage("C09", 0, name="tsan", kind="tsan", timeout=3000, shards=4, args={"stress": 120})]
 
 
+def c10_stages(tier):
+    return [ptfs_stage("C10", 480 if tier == "quick" else 12_000, timeout=3000, crash_is_violation=True)]
+
+
+def c11_stages(tier):
+    return [ptfs_stage("C11", 480 if tier == "quick" else 12_000, timeout=3000, crash_is_violation=True)]
+
+
 def c15_stages(tier):
     return [ptfs_stage("C15", 4_000 if tier == "quick" else 150_000, timeout=2400, crash_is_violation=True)]
 
@@ -326,6 +334,40 @@ PROPS = {
         "rule": "evaluations = requests; distinct = (request kind, k or none, errno, configuration) for histories and (kind, k, errno, inode_file_handles) for "
                 "sweeps; every request is non-trivial.",
         "assumptions": ["worker process is single-threaded", "ext4 scratch directory, running as root"],
+    },
+    "C10": {
+        "level": "exploration",
+        "stages": c10_stages,
+        "floor": 200,
+        "technique": "runtime monitoring: differential of the tree seen through the real OverlayFs (kernel-like client: lookup, readdir, getattr, read, readlink) "
+                     "against an executable reference union model updated per operation; byte/mode/xattr snapshots of every lower layer after every operation",
+        "level_text": "Random layer universes over the names {a,b,c,d} to depth 3 (1 upper + 1-3 lowers; whiteout devices, opaque directories with both xattr spellings, "
+                      "same-named files/dirs/symlinks across layers, hard-link groups) are materialised on disk; random sequences of create/mkdir/mknod/symlink/"
+                      "link/unlink/rmdir/open+write/chmod/truncate/setxattr/removexattr go through the overlay and through the reference model. After every operation the "
+                      "whole visible tree (names, types, permission bits, sizes, contents, link targets) must equal the model, the outcome class must equal the "
+                      "reference wherever the reference is certain, every lower layer must be byte-for-byte (names, modes, contents, xattrs) what it was, and in the "
+                      "universes without an upper layer every modifying operation must fail and leave the tree unchanged.",
+        "level_note": "The reference model is mine (overlayfs rules as stated in the property); a mounted kernel overlay is not used as the oracle. rename is outside the "
+                      "property's operation set and not driven. Outcomes are compared by class (ok / EEXIST / ENOENT / ENOTEMPTY / ENOTDIR / EISDIR); other errno values "
+                      "are not asserted.",
+        "rule": "evaluations = operations applied (each followed by a full-tree comparison); distinct = (operation, reference outcome class, overlay outcome class, upper present, number of lowers).",
+        "assumptions": ["reference union model implements the overlayfs rules of the statement", "runs as root on a filesystem supporting trusted.* xattrs and 0:0 char devices"],
+    },
+    "C11": {
+        "level": "exploration",
+        "stages": c11_stages,
+        "floor": 200,
+        "technique": "runtime monitoring: restart differential (a fresh OverlayFs instance over the same directories after every operation prefix, full-tree comparison with "
+                     "the running instance) plus copy-up monitors that inspect the upper directory on the host",
+        "level_text": "The C10 universes and operation sequences; after every operation a second OverlayFs is started over the same upper and lower directories and its "
+                      "complete tree (names, types, permission bits, sizes, contents, link targets) must equal the running instance's. When an operation succeeds on an object "
+                      "that lived in a lower layer, the upper directory is inspected on the host: the copy must exist with the same type, the expected permission bits, the "
+                      "complete prior content plus the modification, the same link target, and every parent directory created on the way must carry the mode of the lower "
+                      "directory it stands for.",
+        "level_note": "A restart is a new instance in the same process over the same directories (the overlay keeps no state outside them); process crash in the middle of "
+                      "one operation is not injected, so 'crash point' means 'between operations'.",
+        "rule": "evaluations = restart comparisons (one per operation); distinct = (operation, reference outcome class, overlay outcome class, upper present, number of lowers).",
+        "assumptions": ["runs as root on a filesystem supporting trusted.* xattrs and 0:0 char devices"],
     },
     "C16": {
         "level": "exploration",
